@@ -50,6 +50,8 @@ pub struct ReqRep {
     pub hostile: bool,
     /// which property owns the delivery clauses of this family
     pub owner: &'static str,
+    /// the scheduler may register the sockets in any order
+    pub any_order: bool,
 }
 
 impl ReqRep {
@@ -62,7 +64,7 @@ impl ReqRep {
             "repliers": self.repliers.iter().map(|r| r.iter().map(|k| mode_name(k)).collect::<Vec<_>>()).collect::<Vec<_>>(),
             "registration_order": self.order.iter().map(|s| match s { RSock::Q(i) => format!("Q{i}"), RSock::R(i) => format!("R{i}") }).collect::<Vec<_>>(),
             "router_hash_ranks": self.ranks,
-            "faults": self.faults, "close": self.close, "depart": self.depart, "hostile": self.hostile, "owner": self.owner,
+            "faults": self.faults, "close": self.close, "depart": self.depart, "hostile": self.hostile, "owner": self.owner, "any_registration_order": self.any_order,
         })
     }
 
@@ -173,6 +175,9 @@ impl<'s> Env for RrEnv<'s> {
     }
     fn allow_close(&self) -> bool {
         self.scn.close
+    }
+    fn any_order(&self) -> bool {
+        self.scn.any_order
     }
     fn departable(&self, g: &World) -> Vec<usize> {
         if !self.scn.depart {
@@ -416,6 +421,13 @@ fn oracle(scn: &ReqRep, g: &World, out: &Outcome, ids: &Ids, viol: &mut Vec<RVio
         let _ = st;
     }
 
+    // client ids are handed out in adoption order, i.e. (the channel is FIFO) registration order
+    let mut by_reg: Vec<(u64, usize)> = (0..nq).filter_map(|j| ids.q_stream[j].and_then(|st| g.streams[st].sent_at).map(|c| (c, j))).collect();
+    by_reg.sort();
+    // requestor_of[cid] = scenario index of the requestor that was given that id
+    let requestor_of: Vec<usize> = by_reg.iter().map(|x| x.1).collect();
+    let cid_of = |j: usize| -> Option<usize> { requestor_of.iter().position(|x| *x == j) };
+
     // ---- requests: at most once, in order, correctly tagged; exactly once under a stable replier
     // all request deliveries in global order
     let mut deliveries: Vec<(u64, usize, Frame)> = Vec::new(); // (clock, replier, frame)
@@ -436,7 +448,7 @@ fn oracle(scn: &ReqRep, g: &World, out: &Outcome, ids: &Ids, viol: &mut Vec<RVio
         match f {
             Frame::Message(p) => {
                 let mut h = p.headers.clone().unwrap_or_default();
-                h.insert("cid".into(), format!("{j}"));
+                h.insert("cid".into(), format!("{}", cid_of(j).unwrap_or(usize::MAX)));
                 Some(Frame::Message(MessagePayload { headers: Some(h), message: p.message.clone() }))
             }
             _ => None,
@@ -447,8 +459,8 @@ fn oracle(scn: &ReqRep, g: &World, out: &Outcome, ids: &Ids, viol: &mut Vec<RVio
     let mut delivered_flag: Vec<Vec<Option<(usize, u64)>>> = yl.iter().map(|v| vec![None; v.len()]).collect();
     for (c, k, f) in &deliveries {
         let (tag, _) = strip_tag(f);
-        let j = match tag.as_deref().and_then(|t| t.parse::<usize>().ok()) {
-            Some(j) if j < nq => j,
+        let j = match tag.as_deref().and_then(|t| t.parse::<usize>().ok()).and_then(|c| requestor_of.get(c).copied()) {
+            Some(j) => j,
             _ => {
                 if !scn.hostile || matches!(f, Frame::Message(_)) {
                     viol.push(RViol { prop: p02, clause: "reqrep:request-bad-tag".into(), msg: format!("R{k} received {} whose routing tag names no requestor", frame_brief(f)) });
@@ -514,8 +526,8 @@ fn oracle(scn: &ReqRep, g: &World, out: &Outcome, ids: &Ids, viol: &mut Vec<RVio
             for (c, f) in &g.streams[st].yielded {
                 if let Frame::Message(_) = f {
                     let (tag, stripped) = strip_tag(f);
-                    if let Some(j) = tag.as_deref().and_then(|t| t.parse::<usize>().ok()) {
-                        if j < nq {
+                    if let Some(j) = tag.as_deref().and_then(|t| t.parse::<usize>().ok()).and_then(|c| requestor_of.get(c).copied()) {
+                        {
                             if let (Some(qs), Some(qt)) = (ids.q_sink[j], ids.q_stream[j]) {
                                 let adopted = g.streams[qt].first_touch.map_or(false, |t| t < *c);
                                 if !adopted {
